@@ -72,6 +72,16 @@ def run_split(c):
     before = [(X.of_frame(r), r.region) for r in refinable0]
     block0, fix0 = snapshot(die.blockages), snapshot(die.fixed_regions)
     r, n = float(c["r"]), int(c["n"])
+    rej = c.get("rejected_first")
+    if rej:
+        # a request outside the admissible range (r <= sqrt 2, or n < 1) comes first and is refused: the die is as before
+        try:
+            die.split_refinable_regions(float(rej[0]), int(rej[1]))
+            return dict(nt=False, cls=["inadmissible-request-accepted"])  # not refused: whatever it did is outside the property
+        except Exception:
+            pass
+        # (what the refused request left behind is judged by the admissible request that follows: it must still tile the area
+        # the refinable regions covered at the start, reach the count and leave blockages and fixed regions alone)
     try:
         die.split_refinable_regions(r, n)
     except Exception as e:
@@ -105,6 +115,8 @@ def run_split(c):
         cls.append("tiny-die")
     if split:
         cls.append("split")
+    if rej:
+        cls.append("after-a-refused-request")
     if split and r < 2 and n > len(refinable0):
         cls.append("count-driven-with-r<2")
     return dict(nt=split, cls=cls)
@@ -147,6 +159,8 @@ def split_s(draw):
     else:
         c["r"] = draw(st.sampled_from([2, 2.0, 2.5, 3, 4.2, 6, 2.01]))
     c["n"] = draw(st.sampled_from([1, 1, 2, 2, 3, 4, 5, 7, 8, 12, 16, 23, 37, 60]))
+    if draw(_i(0, 3)) == 0:
+        c["rejected_first"] = draw(st.sampled_from([[1.3, 6], [1.0, 2], [1.41, 4], [2, 0], [3, -1], [0.5, 3]]))
     return c
 
 
@@ -162,7 +176,7 @@ def grid_s(draw):
 
 def subchecks():
     return [
-        Sub("split", run_split, strategy=split_s(), n_quick=12000, n_thorough=300000,
-            required=("r<2", "specialised", "split", "count-driven-with-r<2", "tiny-die")),
-        Sub("grid", run_grid, strategy=grid_s(), n_quick=3000, n_thorough=60000, required=("rows!=cols", "square-grid")),
+        Sub("split", run_split, strategy=split_s(), n_quick=12000, n_thorough=300000, fuzz_thorough=6000,
+            required=("r<2", "specialised", "split", "count-driven-with-r<2", "tiny-die", "after-a-refused-request")),
+        Sub("grid", run_grid, strategy=grid_s(), n_quick=3000, n_thorough=60000, fuzz_thorough=1500, required=("rows!=cols", "square-grid")),
     ]
